@@ -52,6 +52,11 @@ def orig_parent(n, d, spare_kind):
     return ROOT if i == 1 else "x%d" % (i - 1)
 
 
+def time_sensitive(b):
+    return b["rot"].get("win", "all") != "all" or \
+        any(e.get("win", "all") not in ("all", "na") for e in b["cert"].values())
+
+
 def mapped_abstract(b):
     """The TLC certificate with the concrete element names (to compare with what was realised)."""
     d, _k = shape(b)
@@ -101,6 +106,10 @@ def plans_for(b, rng, nflip):
         # of the plans, validity windows that touch the (frozen) clock exactly
         sp["vary_content"] = True
         sp["time_edge"] = rng.random() < 0.34
+        # a window that does not cover every instant: the certificate lives on a timeline and the same
+        # objects are validated once per instant of the history TLC chose
+        sp["timeline"] = "extreme" if b.get("scale") == "extreme" else time_sensitive(b)
+        sp["root"]["window"] = b["rot"].get("win", "all")
         sp["rot"] = rng.choice(("right", "right", "samekey")) if b["rot"]["key"] == ROOT \
             else {"wrong": "fresh", "foreign": "foreign"}.get(b["rot"]["key"], "top")
         if spare_kind != "none":
@@ -118,7 +127,7 @@ def plans_for(b, rng, nflip):
             if n == ROOT:
                 # a root certificate shipped inside the certificate under the reserved root name
                 sp["embed"] = {"kind": "genuine" if e["key"] == ROOT else "foreign", "time": e["time"],
-                               "sig": "self"}
+                               "window": e["win"], "sig": "self"}
                 if sigbad:
                     flippable = True
                     if flip_mode:
@@ -131,6 +140,7 @@ def plans_for(b, rng, nflip):
                 if e["sigBy"] == "foreign":
                     xs["sig"] = "foreign"       # the chain hangs from the foreign root
                 xs["time"] = e["time"]
+                xs["window"] = e["win"]
                 if n != "spare":
                     xs["naming"] = e["naming"]
                 if e["curve"] == "Other" and n == "spare":
@@ -183,7 +193,7 @@ def plans_for(b, rng, nflip):
                         flips.append({"el": cn, "field": "key", "region": "xy"})
                     else:
                         es["key"] = "offcurve"
-        return {"spec": sp, "flips": flips}
+        return {"spec": sp, "flips": flips, "clocks": list(b["clks"]) if sp["timeline"] else None}
 
     plans = [mk(False)]
     if flippable:
@@ -359,6 +369,93 @@ def _observe(cert, root_pem, target, scratch, tag, via_file=True, pre_root_pem=N
                 pass
 
 
+def _freeze(instant):
+    """Freeze admin.certificate_v2's clock at `instant` (datetime) / unfreeze (None); returns undo."""
+    import admin.certificate_v2 as cv2
+    real = cv2.datetime
+    if instant is None:
+        return lambda: None
+
+    class FrozenDateTime(real):
+        @classmethod
+        def now(cls, tz=None):
+            return instant if tz is not None else instant.replace(tzinfo=None)
+    cv2.datetime = FrozenDateTime
+
+    def undo():
+        cv2.datetime = real
+    return undo
+
+
+def _ask(c, root, target):
+    """One validate_and_get_values on loaded objects, projected (total)."""
+    obs = {"loaded": True, "valid": False, "failing": "none", "exc": None, "reported": EMPTY_VALUES}
+    try:
+        res = c.validate_and_get_values(root)
+    except Exception as e:
+        obs["exc"] = "validate: %r" % (e,)
+        return obs
+    try:
+        r = res.get(target)
+        if r is None:
+            obs["exc"] = "no verdict for target"
+        elif r[0] is True:
+            obs["valid"] = True
+            obs["reported"] = reported_values(r[1])
+        else:
+            obs["failing"] = str(r[1])
+    except Exception as e:
+        if obs["valid"]:
+            obs["reported"] = {"custom": UNREADABLE, "quote": UNREADABLE, "fields": {}, "dict_fields": {}}
+        obs["exc"] = "unreadable result: %r" % (e,)
+    return obs
+
+
+def observe_history(cert, root_pem, target, scratch, tag, instants, via_file=True, alt_root_pem=None,
+                    requery=()):
+    """The SAME loaded certificate object and the SAME root-of-trust element object are asked once per
+    entry of `instants` (ISO string = clock of admin.certificate_v2 frozen there, None = wall clock).
+    In the rounds listed in `requery` the certificate object is first asked about `alt_root_pem`.
+    Returns one observation per round."""
+    import datetime as _dt
+    import warnings
+    warnings.filterwarnings("ignore")
+    from admin.certificate import HSMCertificate, HSMCertificateV2, HSMCertificateV2ElementX509
+    cp, rp = certv2.write_files(cert, root_pem, scratch, tag)
+    ap = os.path.join(scratch, "alt_%s.pem" % tag)
+    try:
+        root = HSMCertificateV2ElementX509.from_pemfile(rp, ROOT, ROOT)
+        alt = None
+        if alt_root_pem is not None:
+            with open(ap, "w") as f:
+                f.write(alt_root_pem)
+            alt = HSMCertificateV2ElementX509.from_pemfile(ap, ROOT, ROOT)
+        try:
+            c = HSMCertificate.from_jsonfile(cp) if via_file else HSMCertificateV2(cert)
+        except ValueError as e:
+            return [{"loaded": False, "valid": False, "failing": "none", "exc": "load: %s" % str(e)[:120],
+                     "reported": EMPTY_VALUES} for _ in instants]
+        out = []
+        for k, iso in enumerate(instants):
+            undo = _freeze(_dt.datetime.fromisoformat(iso) if iso else None)
+            try:
+                if alt is not None and k in requery:
+                    try:
+                        c.validate_and_get_values(alt)
+                    except Exception:
+                        pass
+                out.append(_ask(c, root, target))
+            finally:
+                undo()
+        return out
+    finally:
+        for p in (cp, rp, ap):
+            try:
+                os.unlink(p)
+            except OSError:
+                pass
+
+
 SWEEP_BASE = None       # (cert, root_pem, material) of the representative chain; set before forking
 
 
@@ -381,6 +478,8 @@ def _run_task(task):
         cert, abstract, applied = certv2.apply_flips(cert, mat, plan["flips"], rng)
     else:
         cert, root_pem, mat, abstract, applied = certv2.realise(plan, rng)
+    if plan.get("clocks") and mat.get("clocks"):
+        return _run_history(tid, plan, meta, scratch, cert, root_pem, mat, abstract, applied)
     clock = mat.get("clock").isoformat() if mat.get("clock") is not None else None
     obs = observe(cert, root_pem, abstract["target"], scratch, "t%d" % tid, via_file=(tid % 5 != 4),
                   clock=clock)
@@ -408,6 +507,44 @@ def _run_task(task):
     return t
 
 
+ROUND_ID = 10000000        # id of the k-th validation (k = 2, 3) of task tid: tid + (k - 1) * ROUND_ID
+
+
+def _run_history(tid, plan, meta, scratch, cert, root_pem, mat, abstract, applied):
+    """Several validations of the same objects, the clock set anew before each (plan["clocks"] = instants
+    1|2|3 of the builder's timeline).  One trace per validation, each with the abstract certificate AS IT
+    IS AT THAT INSTANT; the first is returned, the others ride along in "also"."""
+    ks = list(plan["clocks"])
+    edge = bool(mat["spec"].get("time_edge"))
+    # instant 2 is "now": without boundary windows the first validation may as well use the wall clock
+    instants = [None if (k == 2 and not edge and i == 0) else mat["clocks"][k].isoformat()
+                for i, k in enumerate(ks)]
+    roots = mat["root_pem"]
+    alt = roots["fresh"] if root_pem == roots["right"] else roots["right"]
+    requery = [i for i in range(len(ks)) if (tid + i) % 2 == 1]
+    obss = observe_history(cert, root_pem, abstract["target"], scratch, "h%d" % tid, instants,
+                           via_file=(tid % 5 != 4), alt_root_pem=alt, requery=requery)
+    traces = []
+    for i, (k, obs) in enumerate(zip(ks, obss)):
+        ab = certv2.retime(mat, abstract, k)
+        traces.append({
+            "id": tid + i * ROUND_ID, "cert": ab["cert"], "rot": ab["rot"], "target": ab["target"],
+            "loaded": obs["loaded"], "valid": obs["valid"], "failing": obs["failing"],
+            "reported": obs["reported"], "signed": signed_values(mat) if obs["valid"] else EMPTY_VALUES,
+            "unspecified": ab["unspecified"], "exc": obs["exc"], "applied": applied,
+            "meta": dict(meta, frozen_clock=instants[i] is not None, round=i + 1, instants=ks[:i + 1],
+                         requery=i in requery),
+            "concrete": zlib.compress(json.dumps({
+                "certificate": cert, "root_pem": root_pem, "history": instants[:i + 1],
+                "alt_root_pem": alt, "requery": [r for r in requery if r <= i]}).encode())})
+    t = traces[0]
+    t["history_outcomes"] = ["valid" if x["valid"] else ("invalid" if x["loaded"] else "loaderror")
+                             for x in traces]
+    t["final"] = {"cert": traces[-1]["cert"], "rot": traces[-1]["rot"]}
+    t["also"] = traces[1:]
+    return t
+
+
 HARNESS_ERRORS = []       # tasks the harness itself failed on (reported after the verdicts)
 
 
@@ -425,7 +562,9 @@ def run_tasks(tasks):
             continue
         also = t.pop("also", None)
         out.append(t)
-        if also is not None:
+        if isinstance(also, list):
+            extras.extend(also)
+        elif also is not None:
             extras.append(also)
     return out + extras
 
@@ -475,6 +614,8 @@ def defects_of(abstract):
                                                                             "rot=top-element"))
     if abstract["rot"]["curve"] != "P256":
         out.append("rot:curve=Other")
+    if abstract["rot"].get("time", "Valid") != "Valid":
+        out.append("rot:time=%s" % abstract["rot"]["time"])
     return sorted(set(out))
 
 
@@ -512,6 +653,13 @@ def random_plan(rng):
     sp["root"] = {"curve": rng.choice(("P256", "P256", "P384")), "time": "Valid"}
     sp["vary_content"] = rng.random() < 0.8
     sp["time_edge"] = rng.random() < 0.25
+    clocks = None
+    if rng.random() < 0.3:            # a timeline: windows + 2..3 validations at independent instants
+        sp["timeline"] = rng.choice((True, True, "extreme"))
+        clocks = [rng.choice((1, 2, 3)) for _ in range(rng.choice((1, 2, 3)))]
+        sp["root"]["window"] = rng.choice(("all", "all", "all", "until1", "from3", "only2"))
+        for xs in sp["x509"]:
+            xs["window"] = rng.choice(("all", "all", "all", "until1", "from3", "only2"))
     for i, xs in enumerate(sp["x509"]):
         if rng.random() < 0.3:
             opts = ["selfissued", "likeparent", "nomatch", "rootsubject"]
@@ -564,8 +712,13 @@ def random_plan(rng):
                 ("sgx_attestation_key" if el == a["name"] else "sgx_quote")
             f = rng.choice(certv2.fields_of({"type": typ}))
             flips.append({"el": el, "field": f})
+    if clocks:
+        for xs in sp["x509"]:
+            xs.pop("time", None)      # on a timeline the window decides
+        for ex in sp["extra"]:
+            ex["window"] = {"Valid": "all", "Expired": "until1", "NotYet": "from3"}[ex.get("time", "Valid")]
     # RSA issuers of X.509 elements are outside what C07 exercises (see plans_for)
-    return {"spec": sp, "flips": flips}
+    return {"spec": sp, "flips": flips, "clocks": clocks}
 
 
 def rsa_issues_x509(plan):
@@ -589,7 +742,7 @@ def rsa_issues_x509(plan):
 # ------------------------------------------------------------------------------------------------
 # the check
 # ------------------------------------------------------------------------------------------------
-SYS_ACTIONS = ("Mutate", "Start", "ParseStep", "Build", "Walk")
+SYS_ACTIONS = ("Mutate", "MutateName", "Stretch", "Start", "ParseStep", "Build", "Walk", "Tick")
 
 
 def payload_of(t):
@@ -680,8 +833,15 @@ def run(ctx):
         "names, serial numbers, extensions and signature hash of the X.509 elements are free content: "
         "the reference semantics never reads them (every naming pattern is an explicit Env choice of "
         "the model; serial / extensions / hash / name style are seeded boundary-first)",
-        "the root of trust handed to the validator is inside its own validity period (checking the "
-        "root itself is the verify command's job, C08)",
+        "the text speaks of the periods of the certificate's X.509 elements; when the root of trust "
+        "handed to the validator is itself outside its period (explored on the timelines) a refusal is "
+        "allowed as well as the code's present behaviour of not looking at it (the verify command "
+        "checks the root separately, C08) - a false accept never is",
+        "time moving between validations: the same loaded certificate object and root element object "
+        "are validated 2 (quick) / 3 (thorough) times with admin.certificate_v2's clock frozen at "
+        "instants of a 3-instant timeline chosen by TLC (before / inside / exactly at / after the "
+        "windows of each X.509 element and of the root); every validation is judged against the "
+        "reference at THAT instant",
         "X.509 elements issued under an RSA key are not exercised (the text does not fix a signature "
         "scheme, the code is ECDSA-only and refuses them); RSA / P-384 keys are exercised as the "
         "attestation key's certifier, P-384 also as issuer of X.509 elements",
@@ -693,7 +853,8 @@ def run(ctx):
     ]
     certv2.self_test()
     # 1. design check, exhaustive ---------------------------------------------------------------
-    r = tlc.check("CertV2", "MC_CertV2.cfg", coverage=True, workers=4)
+    # (quick: histories of 2 validations, thorough: of 3)
+    r = tlc.check("CertV2", ctx.pick("MCq_CertV2.cfg", "MC_CertV2.cfg"), coverage=True, workers=4)
     if r.violated:
         raise core.MachineryError("CertV2 model violates %s — model of the code and reference "
                                   "semantics disagree; reproduce on the code before reporting" % r.violated)
@@ -712,20 +873,25 @@ def run(ctx):
     missing = {"NeverValid", "NeverInvalid", "NeverLoadError"} - set(rn.violated)
     if missing:
         raise core.MachineryError("vacuity guard: outcomes never produced by the model: %s" % sorted(missing))
+    rn2 = tlc.run("CertV2", "Neg2_CertV2.cfg", workers=2)
+    if "NeverChanges" not in rn2.violated:
+        raise core.MachineryError("vacuity guard: no verdict ever changes between two validations")
     # 2. every abstract certificate ---------------------------------------------------------------
-    behaviours, rg = tlc.generate("GenCertV2", "Gen_CertV2.cfg")
+    # (quick: clock histories of 2 validations, thorough: of 3)
+    behaviours, rg = tlc.generate("GenCertV2", ctx.pick("Genq_CertV2.cfg", "Gen_CertV2.cfg"))
     res.add_tlc(rg, "Gen_CertV2 certificates")
     uniq = {}
     for b in behaviours:
-        uniq.setdefault(json.dumps([b["cert"], b["rot"]], sort_keys=True), b)
+        uniq.setdefault(json.dumps([b["cert"], b["rot"], b["clks"], b["scale"]], sort_keys=True), b)
     behaviours = [uniq[k] for k in sorted(uniq)]
     res.coverage["behaviours_generated"] = len(behaviours)
+    res.coverage["clock_histories_generated"] = sum(1 for b in behaviours if len(b["clks"]) > 1)
     res.coverage["model_outcomes"] = {o: sum(1 for b in behaviours if b["outcome"] == o)
                                       for o in ("valid", "invalid", "loaderror")}
     # 3. concretise + run the real code -------------------------------------------------------------
     if ctx.quick:
         def timedef(b):
-            return any(e["time"] in ("Expired", "NotYet") for n, e in b["cert"].items()
+            return any(e["win"] not in ("all", "na") for n, e in b["cert"].items()
                        if n not in ("spare", ROOT))
 
         def plain(b):
@@ -734,23 +900,38 @@ def run(ctx):
         def is_must(b):
             # every single deviation, every valid certificate with canonical names, and every
             # (naming x time defect) pair at every depth and position of the plain chains
-            return (b["ndef"] <= 1 or (b["nren"] == 0 and b["outcome"] == "valid")
-                    or (b["nren"] == 1 and timedef(b) and plain(b)))
+            # (single deviations with both clock histories 2,1 and 2,3; the pairs with 2,1)
+            return (b["ndef"] <= 1
+                    or (b["nren"] == 0 and b["outcome"] == "valid" and not time_sensitive(b))
+                    or (b["nren"] == 1 and timedef(b) and plain(b) and b["clks"] == [2, 1])
+                    or (b["scale"] == "extreme" and plain(b)))      # edge dates x every window defect
         must = [b for b in behaviours if is_must(b)]
         rest = [b for b in behaviours if not is_must(b)]
         ctx.rng.shuffle(rest)
-        rt = [b for b in rest if b["nren"] == 1 and timedef(b)][:200]
-        nl = [b for b in rest if b["outcome"] != "loaderror" and not (b["nren"] == 1 and timedef(b))][:1300]
-        le = [b for b in rest if b["outcome"] == "loaderror"][:250]
+        rt = [b for b in rest if b["nren"] == 1 and timedef(b)][:100]
+        nl = [b for b in rest if b["outcome"] != "loaderror" and not (b["nren"] == 1 and timedef(b))][:700]
+        le = [b for b in rest if b["outcome"] == "loaderror"][:150]
         chosen = must + rt + nl + le
         nflip = 3
     else:
-        chosen = behaviours
+        # every certificate; of the four clock histories of a time-sensitive certificate with more than
+        # one deviation, one (seeded); all four for single deviations and for the edge-date scale
+        def keep(b):
+            if b["ndef"] <= 1 or len(b["clks"]) == 1 or b["scale"] == "extreme":
+                return True
+            # (the certificate is the same in all four records except for the time classes at the
+            # last instant: key on what does not change)
+            ident = sorted((n, e["win"], e["by"], e["sigBy"], e["curve"], e["binds"], e["keyValid"],
+                            e["naming"]) for n, e in b["cert"].items())
+            h = zlib.crc32(json.dumps([ident, b["rot"]["key"], b["rot"]["win"], ctx.seed]).encode())
+            return b["clks"] == [[2, 1, 3], [2, 3, 2], [2, 3, 1], [2, 1, 2]][h % 4]
+        chosen = [b for b in behaviours if keep(b)]
         nflip = 3
     tasks, by_id = [], {}
     tid = 0
     for bi, b in enumerate(chosen):
-        plans = plans_for(b, ctx.rng, nflip if (not ctx.quick or b["ndef"] <= 1) else 1)
+        few = (ctx.quick and b["ndef"] > 1) or (len(b["clks"]) > 1 and b["ndef"] > 1)
+        plans = plans_for(b, ctx.rng, 1 if few else nflip)
         for pi, plan in enumerate(plans):
             tid += 1
             tasks.append((tid, ctx.seed, plan, {"src": "model", "plan": pi}, ctx.scratch))
@@ -763,12 +944,14 @@ def run(ctx):
         if b is None:        # an extra observation (answer changed after a query with another root)
             continue
         want = mapped_abstract(b)
-        if t["cert"] != want["cert"] or t["rot"] != want["rot"] or t["unspecified"]:
+        got = t.get("final") or t            # (a history: TLC's record shows the LAST instant)
+        if got["cert"] != want["cert"] or got["rot"] != want["rot"] or t["unspecified"]:
             raise core.MachineryError("concretisation does not realise the abstract certificate: "
                                       "%s vs %s" % (json.dumps(t["cert"], sort_keys=True)[:600],
                                                     json.dumps(want["cert"], sort_keys=True)[:600]))
-        obs = "valid" if t["valid"] else ("invalid" if t["loaded"] else "loaderror")
-        if obs != b["outcome"]:
+        obs = t.get("history_outcomes") or ["valid" if t["valid"] else ("invalid" if t["loaded"]
+                                                                        else "loaderror")]
+        if obs != list(b["outs"])[:len(obs)]:
             model_drift += 1
     res.coverage["behaviours_replayed"] = len(chosen)
     res.coverage["concrete_certificates_from_model"] = len(traces)
@@ -810,7 +993,7 @@ def run(ctx):
     res.coverage["encoding_level_positions_skipped"] = skipped
     all_traces += sweep
     # 5. random specs over the concrete domains (binding B) ------------------------------------------------
-    n_rand = ctx.pick(1000, 20000)
+    n_rand = ctx.pick(700, 12000)
     rnd_tasks = []
     while len(rnd_tasks) < n_rand:
         plan = random_plan(ctx.rng)
@@ -854,6 +1037,7 @@ def run(ctx):
     res.coverage["valid_values_compared_bytewise_in_TLC"] = res.coverage["observed_outcomes"]["valid"]
     res.coverage["unexpected_exceptions"] = sorted({t["exc"] for t in all_traces
                                                     if t["exc"] and t["exc"].startswith("validate")})[:5]
+    res.coverage["validations_after_clock_moved"] = sum(1 for t in all_traces if t["meta"].get("round", 1) > 1)
     res.coverage["frozen_clock_boundary_runs"] = sum(1 for t in all_traces if t["meta"].get("frozen_clock"))
     res.coverage["noncanonical_naming_certificates"] = sum(
         1 for t in all_traces if any(e.get("naming", "canon") not in ("canon", "na") for e in t["cert"].values()))
@@ -872,8 +1056,14 @@ def replay(ctx, path):
         data = json.load(f)
     rp = data["replay"]
     ab = rp["abstract"]
-    obs = observe(rp["concrete"]["certificate"], rp["concrete"]["root_pem"], ab["target"], ctx.scratch,
-                  "replay", clock=rp["concrete"].get("clock"))
+    cc = rp["concrete"]
+    if cc.get("history"):
+        obs = observe_history(cc["certificate"], cc["root_pem"], ab["target"], ctx.scratch, "replay",
+                              cc["history"], alt_root_pem=cc.get("alt_root_pem"),
+                              requery=cc.get("requery") or ())[-1]
+    else:
+        obs = observe(cc["certificate"], cc["root_pem"], ab["target"], ctx.scratch, "replay",
+                      clock=cc.get("clock"))
     t = {"id": 1, "cert": ab["cert"], "rot": ab["rot"], "target": ab["target"], "loaded": obs["loaded"],
          "valid": obs["valid"], "failing": obs["failing"], "reported": obs["reported"],
          "signed": rp["signed"] if obs["valid"] else EMPTY_VALUES}
